@@ -123,10 +123,6 @@ fn describe_trace(t: &Trace) -> String {
     )
 }
 
-pub fn opts_for(spec: &RunSpec) -> RunOptions {
-    spec.opts.clone()
-}
-
 /// run the reference schedule of a compiled workload
 pub fn reference_run(w: &Workload, mk: &dyn Fn() -> abra_core::vm::Runtime, step_cap: u64) -> RunResult {
     let opts = RunOptions {
